@@ -26,11 +26,9 @@ TRUSTED_BASE = [
     "(apimachinery tryUpgrade / DialForUpgrade / http.Request.Write), the tunnel after 101 is not",
 ]
 ASSUMPTIONS = [
-    "histories: the target cluster of a request is the incarnation that owns its Host NOW; a cached decision counts only if "
-    "this incarnation gave it within the TTL; the authorizer's clean-up goroutine is given time to run after a deletion "
-    "(the rig waits, bounded); a server name moving between two LIVE clusters (no stop) is NOT generated: on the unchanged "
-    "tree the previous owner's cached decisions are served for it (reported; theorem C02_decision_of_current_cluster "
-    "assumes no live move, C02_live_move_refuted keeps the witness)",
+    "histories: the target cluster of a request is the incarnation that owns its Host NOW (server names may move between "
+    "live clusters); a cached decision counts only if this incarnation gave it within the TTL; the authorizer's clean-up "
+    "goroutine is given time to run after a deletion (the rig waits, bounded)",
     "a response stream cut in the middle (net/http race between the server closing the request body and the outgoing "
     "transport's last read of it, seen only under CPU starvation) is re-sent by the rig up to 3 times; the last observation "
     "counts, so a reproducible cut is still reported; such retries are counted in the evidence (label rig:retried)",
@@ -65,7 +63,7 @@ def ident(name=b"alice", groups=(b"g1",), extra=()):
 
 
 # ---------------------------------------------------------------- histories (real SAR authorizer)
-LIVE_MOVES = False      # a server name moving between two LIVE clusters: reported, pending a decision (see ASSUMPTIONS)
+LIVE_MOVES = True       # a server name moving between two LIVE clusters (defect H1/H2, repaired by 95b80b4)
 H_CLUSTERS = ["a", "b"]
 H_ALIASES = ["h1", "h2"]
 H_HOSTS = ["a", "b", "h1", "h2", "h1", "zz"]
@@ -103,6 +101,16 @@ def hist_corpus():
                    {"op": "advance", "dt": 300}, hreq("h1"), {"op": "advance", "dt": 1}, hreq("h1"), hreq("zz")], tag="ttl"))
     c.append(hist([{"op": "create", "c": "a", "aliases": [], "policy": E}, hreq("a"), hreq("a"),
                    {"op": "policy", "c": "a", "policy": A}, hreq("a"), hreq("a", "eve"), hreq("a", "alice", "")], tag="error+self"))
+    # H1 / H2: the defect repaired by 95b80b4 - a server name moves between two LIVE clusters
+    mv = lambda a, f, t: {"op": "move", "alias": a, "c": f, "to": t}
+    c.append(hist([{"op": "create", "c": "a", "aliases": ["h1"], "policy": A}, {"op": "create", "c": "b", "aliases": [], "policy": D},
+                   hreq("h1"), mv("h1", "a", "b"), hreq("h1"), hreq("b")], tag="H1-live-move"))
+    c.append(hist([{"op": "create", "c": "a", "aliases": ["h1"], "policy": A}, {"op": "create", "c": "b", "aliases": [], "policy": A},
+                   hreq("h1"), mv("h1", "a", "b"), {"op": "advance", "dt": 301}, hreq("h1"), {"op": "delete", "c": "b"},
+                   {"op": "create", "c": "b", "aliases": ["h1"], "policy": D}, hreq("h1")], tag="H2-stale-watcher"))
+    c.append(hist([{"op": "create", "c": "a", "aliases": ["h1"], "policy": D}, {"op": "create", "c": "b", "aliases": ["h2"], "policy": A},
+                   hreq("h2"), mv("h2", "b", "a"), hreq("h2"), mv("h2", "a", "b"), hreq("h2"), {"op": "delete", "c": "a"}, hreq("h2"),
+                   mv("h1", "a", "b"), mv("b", "b", "a")], tag="move-there-and-back"))
     c.append(hist([{"op": "create", "c": "a", "aliases": ["h1"], "policy": A}, {"op": "create", "c": "b", "aliases": ["h1", "h2"], "policy": D},
                    hreq("h1"), hreq("h2"), {"op": "delete", "c": "a"}, hreq("h1"), {"op": "create", "c": "a", "aliases": ["h1"], "policy": D},
                    hreq("h1"), {"op": "create", "c": "a", "aliases": [], "policy": A}, {"op": "delete", "c": "zz"}], tag="two-clusters"))
@@ -161,10 +169,18 @@ def gen_hist(rng):
                     ops.append(create(c))       # re-created under the same name
         elif k < 84:
             ops.append(create(rng.choice(H_CLUSTERS)))
-        elif k < 96 or not LIVE_MOVES:
+        elif k < 90 or not LIVE_MOVES:
             ops.append({"op": "policy", "c": rng.choice(sorted(live)) if live else "a", "policy": rand_policy(rng)})
         else:
-            ops.append({"op": "move", "alias": rng.choice(H_ALIASES), "c": rng.choice(H_CLUSTERS), "to": rng.choice(H_CLUSTERS)})
+            al = rng.choice(H_ALIASES)
+            frm = keys.get(al) if rng.chance(5, 6) else rng.choice(H_CLUSTERS)
+            to = [c for c in H_CLUSTERS if c != frm]
+            to = to[0] if (to and rng.chance(5, 6)) else rng.choice(H_CLUSTERS)
+            ops.append({"op": "move", "alias": al, "c": frm or "a", "to": to})
+            if keys.get(al) == frm and frm is not None and to in live and to != frm:
+                keys[al] = to
+                if rng.chance(1, 2):
+                    ops.append(hreq(al, rng.choice(H_REQUESTORS), rng.choice(H_IMPS)))
     attl, dttl = rng.choice([(300, 30), (300, 30), (30, 300), (0, 0), (100, 100)])
     return hist(ops, attl, dttl, tag="gen-hist")
 
